@@ -152,7 +152,7 @@ def search(acc: Acc, tier, shard, nshards):
     def body(data):
         ch = model.Ch(data.draw)
         counter["i"] += 1
-        doc = model.Gen(ch, prof).document()
+        doc = model.any_document(model.Gen(ch, prof))
         st_ = {}
         text = render.render(doc, render.Surface(ch, stats=st_, crlf=True)).text
         has_comment = bool(st_.get("sep:hash_comment") or st_.get("sep:c_comment"))
